@@ -2,14 +2,17 @@
 from pv import propkit as K, native
 from pv.core import PropResult, Ob
 
-LEVEL = 'other'
-EXPLANATION = ('K1: AstBuilder.parse returns the tree only when the entry rule matched and nothing is left over, else the '
-               'library parser exception; K2: no lexer token class accepts the empty string (every accepted token consumes at '
-               'least one character), the grammar has no left recursion (every token set starts with a lexer token or a '
-               'composite whose own sets do); the consumed-prefix contract of CompositeBaseToken.get is a run-time contract '
-               'monitored on every call of the bounded sweep (dynamic class dispatch keeps it outside the K1 subset), so the '
-               'level is other.')
+LEVEL = 'proof'
+EXPLANATION = ('K1: CompositeBaseToken.get (ordered-choice parser with dynamic class dispatch; two loops, own contract as '
+               'induction hypothesis for the recursive call) returns either (None, the untouched token list) or a token that '
+               'covers exactly a non-empty prefix of the lexer tokens, leaves in order, whose children match one token set of '
+               'its class, plus the untouched suffix - nothing is dropped, duplicated or reordered; AstBuilder.parse returns '
+               'the tree only when nothing is left over, else the library parser exception; two auxiliary lemmas (append-'
+               'prefix, position decomposition) proved by induction (base / step queries); K2: no lexer token class accepts '
+               'the empty string, no left recursion (termination), both separators are one token class. The regex lexer '
+               '(whitespace, line breaks, token extraction) is bounded.')
 K1 = ['AstBuilder.parse']
+K1_GET = ['CompositeBaseToken.get']
 
 
 def _grammar(res):
@@ -33,15 +36,53 @@ def _grammar(res):
     res.add(o)
 
 
+def _lemmas(res):
+    import z3
+    from pv import sorts as S
+    from pv.sorts import ln, at
+    from contracts import c05
+    reg = c05.registry_get()
+    pw, width = reg.lemma_symbols['pw'], reg.lemma_symbols['width']
+    p, k = z3.Const('lp', S.V), z3.Int('lk')
+    defs = [z3.ForAll([p, k], z3.Implies(k <= 0, pw(p, k) == 0), patterns=[pw(p, k)]),
+            z3.ForAll([p, k], z3.Implies(k > 0, pw(p, k) == pw(p, k - 1) + width(at(p, k - 1))), patterns=[pw(p, k)]),
+            z3.ForAll([p], width(p) >= 0, patterns=[width(p)])]
+    N, O, n, x, j, i = z3.Const('N', S.V), z3.Const('O', S.V), z3.Int('n'), z3.Int('x'), z3.Int('j'), z3.Int('i')
+    same = z3.ForAll([i], z3.Implies(z3.And(0 <= i, i < ln(O)), at(N, i) == at(O, i)), patterns=[at(N, i)])
+    K.lemma(res, 'C05.lemma.append_prefix.base', lambda: (defs + [same, n <= 0], pw(N, n) == pw(O, n)),
+            'pw(new, k) == pw(old, k) for k <= 0')
+    K.lemma(res, 'C05.lemma.append_prefix.step',
+            lambda: (defs + [same, 0 <= n, n < ln(O), pw(N, n) == pw(O, n)], pw(N, n + 1) == pw(O, n + 1)),
+            'induction step: the first k parts of old and of old + [x] have the same total width (k <= len(old))')
+
+    def covered(m, xx):
+        return z3.Exists([j], z3.And(0 <= j, j < m, pw(p, j) <= xx, xx < pw(p, j + 1)))
+    K.lemma(res, 'C05.lemma.decomposition.base', lambda: (defs + [0 <= x, x < pw(p, 0)], z3.BoolVal(False)),
+            'no leaf position below pw(parts, 0) == 0')
+    # step with explicit witnesses: the induction hypothesis instantiated at x yields some j0 < n (Skolem constant);
+    # the goal exhibits the witness j0 (x below pw(parts, n)) or n (x in the last part)
+    j0 = z3.Int('j0')
+    ih_at_x = z3.Implies(z3.And(0 <= x, x < pw(p, n)), z3.And(0 <= j0, j0 < n, pw(p, j0) <= x, x < pw(p, j0 + 1)))
+    goal = z3.Or(z3.And(0 <= j0, j0 < n + 1, pw(p, j0) <= x, x < pw(p, j0 + 1)), z3.And(pw(p, n) <= x, x < pw(p, n + 1)))
+    K.lemma(res, 'C05.lemma.decomposition.step',
+            lambda: (defs + [0 <= n, n < ln(p), ih_at_x, 0 <= x, x < pw(p, n + 1)], goal),
+            'induction step: every leaf position below pw(parts, n+1) lies in one of the first n+1 parts (witness: the part '
+            'given by the induction hypothesis, or part n)')
+
+
 def run(ctx):
     res = PropResult('C05')
     K.k1_block(res, ctx, 'contracts.c05', K1, 'C05.')
+    K.k1_block(res, ctx, 'contracts.c05:registry_get', K1_GET, 'C05.')
+    _lemmas(res)
     _grammar(res)
     K.canary_contract(res, 'contracts.c05', 'AstBuilder.parse', 'whole_formula', 'result == entry_token(expression)')
     K.monitor_if_present(res, ctx, 'mon_c05')
     res.trusted_base += ['assumed contract of EntryPointToken.get (token or None, unconsumed rest)', 'CPython re']
-    res.assumptions += ['CompositeBaseToken.get (ordered-choice parser with dynamic class dispatch) is not under a K1 '
-                        'contract; its consumed-prefix postcondition is checked at run time by the bounded monitor']
+    res.assumptions += ['tokens are modelled as immutable values (lexer token: width 1; composite: node(class, parts)); the set '
+                        'comprehension deciding the control-construction flag is abstracted (it only chooses between returning None '
+                        'and raising the parser exception)', 'partial correctness of the recursion; termination from '
+                        'C05.Grammar.no_left_recursion + C05.Lexer.progress', 'message arguments of raised exceptions are not evaluated']
     return res
 
 
